@@ -113,6 +113,12 @@ class CleanPass(FunctionPass):
         block1.remove_instruction(last_jump)
         last_jump.delete()
 
+        # Phi nodes in block2 select their only incoming value:
+        for phi in block2.phis:
+            value = phi.get_value(block1)
+            phi.replace_by(value)
+            phi.remove_from_block()
+
         # Copy all instructions to block1:
         for instruction in block2:
             block1.add_instruction(instruction)
